@@ -7,7 +7,9 @@ checks NoStale on it.
 Binding: TLC enumerates every program of the `alias`, `memfn`, `memarr` and `str` profiles (strings through
 functions that return their parameter / a local / a fresh concatenation, `x add f()` with f
 reassigning x, arrays of strings with push / indexed store / pop / copy, loops with body-locals,
-shadowing blocks) and the reference result of each.  Every program runs in the debug build (freed
+shadowing blocks), of the `aliascases` family (a computed string read as the first operand of every
+string operator, method with arguments, call, array literal, while a LATER operand calls a function that
+re-assigns it) and of `arraycases`, with the reference result of each.  Every program runs in the debug build (freed
 frame memory is poisoned with 0xDD, fresh with 0xCD) WITHOUT frame arena (nothing is ever reset or
 recycled) and WITH it; a program whose base run equals the reference but whose frame-arena run
 differs - other values, another ending, an abort - is a violation.  Event traces (every assigned
@@ -51,9 +53,9 @@ def run(tier):
     if old.rc != 12:
         raise common.ToolError("Reclaim.tla does not refute the alias-on-read / release-before-promote discipline (model not discriminating)")
     tally.add_tlc("Reclaim(model of the ownership protocol)", mc)
-    for module, env in profiles(tier) + [("GenArrCases", {})]:
-        r = le.generate(module, env=env, timeout=2400, cfg="lang/GenArrCases.cfg" if module == "GenArrCases" else "lang/MCGen.cfg",
-                        coverage=module != "GenArrCases")
+    decl = {"GenArrCases": "lang/GenArrCases.cfg", "GenAliasCases": "lang/GenAliasCases.cfg"}
+    for module, env in profiles(tier) + [("GenArrCases", {}), ("GenAliasCases", {"LONGSTR": "0"}), ("GenAliasCases", {"LONGSTR": "1"})]:
+        r = le.generate(module, env=env, timeout=2400, cfg=decl.get(module, "lang/MCGen.cfg"), coverage=module not in decl)
         tally.add_tlc(module, r)
         judged = le.replay(r.records, modes=["nn", "fn"], ev=1, compare_events=True)
         tally.add(judged)
